@@ -9,7 +9,7 @@ from jaxtyping import Float
 from torch import Tensor
 
 from linear_operator.operators._linear_operator import IndexType, LinearOperator
-
+from linear_operator.utils.broadcasting import _matmul_broadcast_shape
 from linear_operator.utils.getitem import _compute_getitem_size
 from linear_operator.utils.memoize import cached
 
@@ -67,13 +67,7 @@ class ZeroLinearOperator(LinearOperator):
         rhs_size_ind = -2 if rhs.ndimension() > 1 else -1
         if self.size(-1) != rhs.size(rhs_size_ind):
             raise RuntimeError("Size mismatch, self: {}, rhs: {}".format(self.size(), rhs.size()))
-        new_m = self.size(-2)
-        if rhs_size_ind == -1:
-            *batch_shape, m = rhs.shape
-            output_shape = (*batch_shape, new_m)
-        else:
-            *batch_shape, m, n = rhs.shape
-            output_shape = (*batch_shape, new_m, n)
+        output_shape = _matmul_broadcast_shape(self.shape, rhs.shape)
         return torch.zeros(*output_shape, dtype=rhs.dtype, device=rhs.device)
 
     def _prod_batch(self, dim: int) -> LinearOperator:
@@ -111,13 +105,7 @@ class ZeroLinearOperator(LinearOperator):
         rhs_size_ind = -2 if rhs.ndimension() > 1 else -1
         if self.size(-2) != rhs.size(rhs_size_ind):
             raise RuntimeError("Size mismatch, self: {}, rhs: {}".format(self.size(), rhs.size()))
-        new_m = self.size(-1)
-        if rhs_size_ind == -1:
-            *batch_shape, m = rhs.shape
-            output_shape = (*batch_shape, new_m)
-        else:
-            *batch_shape, m, n = rhs.shape
-            output_shape = (*batch_shape, new_m, n)
+        output_shape = _matmul_broadcast_shape(self.mT.shape, rhs.shape)
         return torch.zeros(*output_shape, dtype=rhs.dtype, device=rhs.device)
 
     def _transpose_nonbatch(self: Float[LinearOperator, "*batch M N"]) -> Float[LinearOperator, "*batch N M"]:
@@ -199,13 +187,7 @@ class ZeroLinearOperator(LinearOperator):
         tensor_size_ind = -2 if other.ndimension() > 1 else -1
         if self.size(-1) != other.size(tensor_size_ind):
             raise RuntimeError("Size mismatch, self: {}, other: {}".format(self.size(), other.size()))
-        new_m = self.size(-2)
-        if tensor_size_ind == -1:
-            *batch_shape, m = other.shape
-            output_shape = (*batch_shape, new_m)
-        else:
-            *batch_shape, m, n = other.shape
-            output_shape = (*batch_shape, new_m, n)
+        output_shape = _matmul_broadcast_shape(self.shape, other.shape)
         return ZeroLinearOperator(*output_shape, dtype=other.dtype, device=other.device)
 
     def mul(
